@@ -23,7 +23,10 @@ TEXTS = ["", "a", "hello world", "with,comma", 'with "quotes"', "line1\nline2", 
          "é ü ñ", "日本語", "\U0001F600", "'apostrophe", "=A1+B1", "TRUE", "false", "None", "0x10", "1,2,3,x", "12abc", "1 2", "--5", "1e", "e5", ".", "-", "+", ",",
          "$5", "5%", "1/2", "2020-01-01", "12:30", "\"", "\"\"", "a\"b", ",", ",,", "a,", "\n", "x\n", "null\x00byte"[:4]]
 NUMBERS = ["0", "1", "-1", "+1", "42", "007", "3.14", "-0.5", ".5", "5.", "1,000", "1,234,567.89", "-1,000", "1e3", "1E3", "1.5e-7", "-2.5E+10", "1_000", "1_0.5",
-           " 12 ", "12 ", "\t7", "١٢٣", "１２３", "999999999999999", "0.000001", "123456.789", "1e15", "-0", "0.0", "1e-300", "1e300"]
+           " 12 ", "12 ", "\t7", "١٢٣", "１２３", "999999999999999", "0.000001", "123456.789", "1e15", "-0", "0.0", "1e-300", "1e300",
+           # long digit strings: still numbers (compared as doubles), never a crash
+           "12345678901234567890", "1234567890123456789012345678901234", "1" + "0" * 39, "9" * 45, "-" + "7" * 36, "1,234,567,890,123,456,789,012",
+           "0.1234567890123456789012345678901234567890", "123456789012345678901234567890.5"]
 
 
 def is_number(v):
